@@ -331,7 +331,7 @@ def random_pipelines(ctx, model, cc, PandoraMachine, methods, params, replay):
 
     band_sets = [[None], [None], ["r", "g", "b"], ["red", "green", "nir"], ["r", "g"]]
 
-    def step_cfg(kind, bands):
+    def step_cfg(kind, bands, p_bad=0.06):
         mname = rng.choice(by_kind[kind])
         cfg = {}
         valid = True
@@ -348,11 +348,11 @@ def random_pipelines(ctx, model, cc, PandoraMachine, methods, params, replay):
                     items.append((p, rng.choice(["r", "x", None, ""])))
                 continue
             if rng.random() < 0.5:
-                if rng.random() < 0.06 and bad.get((kind, mname, p)):
+                if rng.random() < p_bad and bad.get((kind, mname, p)):
                     items.append((p, rng.choice(bad[(kind, mname, p)])))
                 elif good.get((kind, mname, p)):
                     items.append((p, rng.choice(good[(kind, mname, p)])))
-        if rng.random() < 0.02:
+        if rng.random() < p_bad / 3:
             items.append(("unknown_parameter", 3))
         rng.shuffle(items)
         for k, v in items:
@@ -401,7 +401,7 @@ def random_pipelines(ctx, model, cc, PandoraMachine, methods, params, replay):
             pipe, meths = {}, []
             for nm in names:
                 k = nm.split(".")[0]
-                mname, cfg = step_cfg(k, bands)
+                mname, cfg = step_cfg(k, bands, 0.006)
                 pipe[nm] = cfg
                 meths.append((nm, k, mname))
             seq.append(({"pipeline": pipe}, meths))
